@@ -74,7 +74,18 @@ pub fn judge(rep: &mut Report, c: &Case) {
             if states.last().map(shape) != Some(shape(&w)) { rep.nontrivial(hash64(&(&c.rules, &c.word))); if rep.samples.len() < 4 { let v = json!({"rules": c.rules, "word": c.word, "after_each_group": states.iter().map(sw::render).collect::<Vec<_>>()}); rep.sample(|| v); } }
         }
         Err(Applied::Abort(s)) => rep.abort(s, cj),
-        Err(_) => rep.obs("runs_returning_err", 1),
+        Err(_) => {
+            rep.obs("runs_returning_err", 1);
+            // some group fails: the words after the groups before it were reached all the same (a trace shows them) and are checked
+            let mut cur = w.clone();
+            for (i, rule) in c.rules.iter().enumerate() {
+                let Ok(pr) = compile1(rule) else { break };
+                match apply(&pr, &cur) {
+                    Applied::Ok(st) => { if let Some(v) = check_word(&st) { let culprit = crate::c02::shape_of(rule); rep.violation(format!("{} after `{}`", class(&v), culprit), || json!({"case": cj(), "group": i, "rule": rule, "observed": v, "word_after": sw::dump_json(&st)})); return } cur = st; }
+                    _ => break,
+                }
+            }
+        }
     }
 }
 
